@@ -754,6 +754,9 @@ func completionEvent(ins ssa.Instruction) string {
 		if cell == "URIParamsLst.Types" {
 			return "Types|="
 		}
+		if strings.HasSuffix(cell, ".LastHVal") {
+			return "LastHVal" // the running per-header extent is restarted
+		}
 		if cell == "URIParam.T" {
 			if call, ok := x.Val.(*ssa.Call); ok && call.Call.StaticCallee() != nil && call.Call.StaticCallee().Name() == "URIParamResolve" {
 				return "T=Resolve"
@@ -766,6 +769,12 @@ func completionEvent(ins ssa.Instruction) string {
 				return "PFlags.Set"
 			case "HdrLst.SetHdr":
 				return "SetHdr"
+			case "PField.Extend":
+				if len(x.Call.Args) > 0 {
+					if fa, ok := x.Call.Args[0].(*ssa.FieldAddr); ok && strings.HasSuffix(fieldCell(fa), ".LastHVal") {
+						return "LastHVal" // ... or extended
+					}
+				}
 			}
 		}
 	}
@@ -780,8 +789,8 @@ func ruleK3path(c *Ctx, rule string, only string) {
 	eoh, _ := c.namedConstInt("ErrHdrEOH")
 	want := map[string][]string{
 		"ParseHeaders":          {"N++", "PFlags.Set", "SetHdr"},
-		"ParseAllContactValues": {"N++"},
-		"ParseAllPAIValues":     {"N++"},
+		"ParseAllContactValues": {"N++", "LastHVal"},
+		"ParseAllPAIValues":     {"N++", "LastHVal"},
 		"ParseAllURIParams":     {"N++", "T=Resolve", "Types|="},
 		"ParseAllURIHdrs":       {"N++"},
 	}
